@@ -82,12 +82,16 @@ static const struct hset hsets[] = {
 #define NHSETS ((int)(sizeof hsets / sizeof hsets[0]))
 
 struct barg { const char *label; const char *p; size_t n; int adv; };
-static const struct barg bodies[] = {
+static struct barg bodies[5] = {
 	{ "b-none", L(""), 0 },
 	{ "b-hello", L("hello"), 0 },
 	{ "b-looks-like-message", L("0\r\n\r\nGET /x HTTP/1.1\r\n\r\nHTTP/1.1 200 OK\r\n\r\n\0\xff"), 0 },
+	/* thorough only (-P bigbodies=1): bodies spanning several evbuffer chains / several writes; filled in init() */
+	{ "b-4k", NULL, 4096, 0 },
+	{ "b-70k", NULL, 70000, 0 },
 };
-#define NBODIES 3
+#define NBODIES (mc_param("bigbodies", 0) ? 5 : 3)
+#define NBENIGN_HSETS 10          /* the first 10 field sets are the benign ones */
 
 /* client */
 struct marg { const char *label; int type; const char *name; int has_body_flag; };
@@ -119,8 +123,8 @@ static const struct sarg reasons[] = {
 	{ "reason-unvalidated", "a\rb", 1 },
 };
 #define NREASONS ((int)(sizeof reasons / sizeof reasons[0]))
-static const int codes[] = { 200, 404, 500, 204, 304, 299 };
-#define NCODES 6
+static const int codes[] = { 200, 404, 500, 204, 304, 299, /* thorough (-P morecodes=1): */ 201, 206, 301, 400, 503, 599 };
+#define NCODES (mc_param("morecodes", 0) ? 12 : 6)
 struct rk { const char *label; const char *bytes; int head, major, minor, keepalive, close; };
 static const struct rk reqkinds[] = {
 	{ "get11", "GET /x HTTP/1.1\r\nHost: h\r\n\r\n", 0, 1, 1, 0, 0 },
@@ -128,8 +132,12 @@ static const struct rk reqkinds[] = {
 	{ "get10", "GET /x HTTP/1.0\r\n\r\n", 0, 1, 0, 0, 0 },
 	{ "get10-keepalive", "GET /x HTTP/1.0\r\nConnection: keep-alive\r\n\r\n", 0, 1, 0, 1, 0 },
 	{ "get11-close", "GET /x HTTP/1.1\r\nHost: h\r\nConnection: close\r\n\r\n", 0, 1, 1, 0, 1 },
+	/* requests that arrive with a chunked body: the request object has been through the chunked reader */
+	{ "post11-chunked", "POST /x HTTP/1.1\r\nHost: h\r\nTransfer-Encoding: chunked\r\n\r\n3\r\nabc\r\n0\r\n\r\n", 0, 1, 1, 0, 0 },
+	{ "post10-chunked", "POST /x HTTP/1.0\r\nTransfer-Encoding: chunked\r\n\r\n3\r\nabc\r\n0\r\n\r\n", 0, 1, 0, 0, 0 },
+	{ "post11-cl", "POST /x HTTP/1.1\r\nHost: h\r\nContent-Length: 3\r\n\r\nabc", 0, 1, 1, 0, 0 },
 };
-#define NREQKINDS 5
+#define NREQKINDS (mc_param("morecodes", 0) ? 8 : 7)   /* post11-cl only in thorough */
 enum { ST_REPLY, ST_ERROR, ST_CHUNK1, ST_CHUNK2, ST_CHUNK0, NSTYLES };
 static const char *style_names[] = { "send_reply", "send_error", "start+chunk+end", "start+2chunks+end", "start+end" };
 
@@ -138,11 +146,32 @@ static long live0; static uint64_t fd0;
 
 /* what evhttp_add_header accepted, in order */
 struct want { int n; struct { const char *n, *v; int adv; } f[8]; char lenbuf[24]; };
+/* thorough (-P pairs=1): two adversarial arguments at a time, restricted to values that are handled correctly
+ * on their own (refused or sanitised); the ones that are findings by themselves stay one-at-a-time */
+static int bad_alone(const char *label)
+{
+	return !strcmp(label, "target-with-space") || !strcmp(label, "target-empty") || !strcmp(label, "hdr-name-whitespace");
+}
+static char pair_label[120];
+/* second (benign) field set appended after the first one: 0 = none (thorough: -P cohdr=1) */
+static const struct hset *choose_co(int hi)
+{
+	if (!mc_param("cohdr", 0)) return NULL;
+	int c = mc_choose(NBENIGN_HSETS, 0, "co-headers");
+	if (c == 0 || c == hi) return NULL;
+	return &hsets[c];
+}
 
-static void add_headers(struct evkeyvalq *q, const struct hset *hs, size_t bodylen, struct want *w)
+static void add_headers1(struct evkeyvalq *q, const struct hset *hs, struct want *w);
+static void add_headers(struct evkeyvalq *q, const struct hset *hs, const struct hset *co, size_t bodylen, struct want *w)
 {
 	w->n = 0;
 	snprintf(w->lenbuf, sizeof w->lenbuf, "%zu", bodylen);
+	add_headers1(q, hs, w);
+	if (co) add_headers1(q, co, w);
+}
+static void add_headers1(struct evkeyvalq *q, const struct hset *hs, struct want *w)
+{
 	for (int i = 0; i < hs->nh; i++) {
 		const char *v = !strcmp(hs->h[i].v, "@LEN@") ? w->lenbuf : hs->h[i].v;
 		int r = evhttp_add_header(q, hs->h[i].n, v);
@@ -246,9 +275,11 @@ static void run_client(void)
 	int ti = mc_choose(NTARGETS, 0, "target");
 	int hi = mc_choose(NHSETS, 0, "headers");
 	int bi = mc_choose(NBODIES, 0, "body");
+	const struct hset *co = choose_co(hi);
 	const struct marg *me = &methods[mi]; const struct sarg *tg = &targets[ti]; const struct hset *hs = &hsets[hi]; const struct barg *bo = &bodies[bi];
-	if (tg->adv + hs->adv > 1) { mc_observe("client: skipped (two adversarial dimensions)"); return; }
+	if (tg->adv + hs->adv > 1 && !(mc_param("pairs", 0) && !bad_alone(tg->label) && !bad_alone(hs->label))) { mc_observe("client: skipped (two adversarial dimensions)"); return; }
 	const char *label = tg->adv ? tg->label : hs->adv ? hs->label : "benign";
+	if (tg->adv && hs->adv) { snprintf(pair_label, sizeof pair_label, "%s+%s", tg->label, hs->label); label = pair_label; }
 	if ((tg->adv || hs->adv) && !me->has_body_flag && bo->n) { mc_observe("client: skipped (adversarial argument only against benign shapes)"); return; }
 	int sv[2]; struct hc_buf cap = {0}; struct want w; struct r9_msg m;
 	int cb_called = 0;
@@ -260,7 +291,7 @@ static void run_client(void)
 	evhttp_connection_set_ext_method_cmp(evcon, ext_cmp);
 	struct evhttp_request *req = evhttp_request_new(client_done, &cb_called);
 	if (ver) { req->major = 1; req->minor = 0; }
-	add_headers(req->output_headers, hs, bo->n, &w);
+	add_headers(req->output_headers, hs, co, bo->n, &w);
 	if (bo->n) evbuffer_add(req->output_buffer, bo->p, bo->n);
 	int rc = evhttp_make_request(evcon, req, (enum evhttp_cmd_type)me->type, tg->v);
 	hc_run();
@@ -322,7 +353,7 @@ out:
 }
 
 /* ---------------- server side ---------------- */
-static struct { int style, code; const char *reason; const struct hset *hs; const struct barg *body; struct want w; int calls; } plan;
+static struct { int style, code; const char *reason; const struct hset *hs, *co; const struct barg *body; struct want w; int calls; } plan;
 
 static void handler(struct evhttp_request *req, void *arg)
 {
@@ -331,7 +362,7 @@ static void handler(struct evhttp_request *req, void *arg)
 	const struct barg *b = plan.body;
 	struct evbuffer *buf = evbuffer_new();
 	size_t total = plan.style == ST_CHUNK2 ? 2 * b->n : plan.style == ST_CHUNK0 ? 0 : b->n;
-	if (plan.style != ST_ERROR) add_headers(req->output_headers, plan.hs, total, &plan.w);
+	if (plan.style != ST_ERROR) add_headers(req->output_headers, plan.hs, plan.co, total, &plan.w);
 	else plan.w.n = 0;
 	switch (plan.style) {
 	case ST_REPLY:
@@ -363,7 +394,7 @@ static void run_server(void)
 	int bi = mc_choose(NBODIES, 0, "body");
 	const struct rk *rk = &reqkinds[ki]; const struct sarg *rs = &reasons[ri]; const struct hset *hs = &hsets[hi]; const struct barg *bo = &bodies[bi];
 	int code = codes[ci];
-	if (rs->adv + hs->adv > 1) { mc_observe("server: skipped (two adversarial dimensions)"); return; }
+	if (rs->adv + hs->adv > 1 && !(mc_param("pairs", 0) && !bad_alone(rs->label) && !bad_alone(hs->label))) { mc_observe("server: skipped (two adversarial dimensions)"); return; }
 	if (st == ST_ERROR && (hi != 0 || bi != 0 || code < 400)) { mc_observe("server: skipped (send_error takes no fields/body)"); return; }
 	if (st == ST_CHUNK0 && bi != 0) { mc_observe("server: skipped (no chunk, body irrelevant)"); return; }
 	{
@@ -373,6 +404,8 @@ static void run_server(void)
 		    (st >= ST_CHUNK1 && !strcmp(hs->label, "h-user-cl"));
 		if ((rs->adv || hs->adv) && shape) { mc_observe("server: skipped (adversarial argument only against benign shapes)"); return; }
 	}
+	const struct hset *co = (st == ST_ERROR) ? NULL : choose_co(hi);
+	if (co && st >= ST_CHUNK1 && !strcmp(co->label, "h-user-cl") && (rs->adv || hs->adv)) { mc_observe("server: skipped (adversarial argument only against benign shapes)"); return; }
 	int sv[2]; struct hc_buf cap = {0}; struct r9_msg m;
 	struct sockaddr_un sa; memset(&sa, 0, sizeof sa); sa.sun_family = AF_UNIX;
 	hc_exec_begin();
@@ -380,7 +413,7 @@ static void run_server(void)
 	struct evhttp *http = evhttp_new(hc_base);
 	evhttp_set_gencb(http, handler, NULL);
 	memset(&plan, 0, sizeof plan);
-	plan.style = st; plan.code = code; plan.reason = rs->v; plan.hs = hs; plan.body = bo;
+	plan.style = st; plan.code = code; plan.reason = rs->v; plan.hs = hs; plan.co = co; plan.body = bo;
 	evhttp_get_request(http, sv[0], (struct sockaddr *)&sa, sizeof(sa_family_t), NULL);
 	hc_peer_write(sv[1], rk->bytes, strlen(rk->bytes));
 	hc_run();
@@ -398,6 +431,7 @@ static void run_server(void)
 	int bodiless = rk->head || code == 204 || code == 304;
 	/* label: the adversarial argument if any, else the reply shape that matters for framing */
 	const char *label = rs->adv ? rs->label : hs->adv ? hs->label : "benign";
+	if (rs->adv && hs->adv) { snprintf(pair_label, sizeof pair_label, "%s+%s", rs->label, hs->label); label = pair_label; }
 	const char *flabel = label;
 	if (!rs->adv && !hs->adv) {
 		if (bodiless && (sent || st == ST_ERROR)) flabel = rk->head ? "body-on-head-reply" : "body-on-204-304-reply";
@@ -477,6 +511,11 @@ static void run_server(void)
 static void init(void)
 {
 	hc_global_init();
+	for (int i = 3; i < 5; i++) {
+		char *p = malloc(bodies[i].n);
+		for (size_t k = 0; k < bodies[i].n; k++) p[k] = (k % 61 == 59) ? '\r' : (k % 61 == 60) ? '\n' : (char)('a' + k % 23);
+		bodies[i].p = p;
+	}
 	live0 = mcx_alloc_live(); fd0 = mcx_fd_signature();
 }
 
